@@ -1,6 +1,7 @@
 import Pacti.Driver.Wire
 import Pacti.Driver.OpsPoly
 import Pacti.Model.Syntax
+import Pacti.Model.Parse
 open Lean Wire Syntax
 /-
   Driver ops of the constraint-syntax model (C09).
@@ -93,7 +94,8 @@ end SyntaxWire
 /-- op "translate": tree in, term list or error kind out, for the source as it is now (`translateG`: the value of
     `_combine_optional_floats(None, None)` and the kind of arithmetic parse action are read off the source);
     op "translate_with": the same with both facts given explicitly (`"nn": null | "p/q"`, `"fold": bool`), used by
-    the harness self-test -/
+    the harness self-test;
+    op "parse_strs": strings in (with the variable table), per string the term list or error kind of `Parse.fromChars` -/
 def handleSyntax (op : String) (j : Json) : Option (Except String Json) :=
   let run (f : Except String Json) : Option (Except String Json) := some f
   match op with
@@ -108,4 +110,16 @@ def handleSyntax (op : String) (j : Json) : Option (Except String Json) :=
       | .error _ => pure none
     let fold ← (← j.getObjVal? "fold").getBool?
     pure (jExcept (translate nn fold e) jTL)
+  | "parse_strs" => run do
+    -- the strings themselves through the model of the lexical level and of the ordered choice (`Model/Parse.lean`);
+    -- with "expr": also the tree the harness meant (as op "translate")
+    let names ← (← (← j.getObjVal? "names").getArr?).toList.mapM (·.getStr?)
+    let strs ← (← (← j.getObjVal? "strings").getArr?).toList.mapM (·.getStr?)
+    let parsed := strs.map fun s => jExcept (Parse.fromChars names s.toList) jTL
+    let base ← match j.getObjVal? "expr" with
+      | .ok ej => do
+        let e ← SyntaxWire.getExpr ej
+        pure (jExcept (fromStringG e) jTL)
+      | .error _ => pure (Json.mkObj [])
+    pure (base.setObjVal! "parsed" (Json.arr parsed.toArray))
   | _ => none
